@@ -329,10 +329,13 @@ impl Scenario for Td {
         let log = self.conn.log.snapshot();
         let stops = self.conn.log.stops();
         let want = expected_class(self.cfg.cause);
-        if stops.len() != 1 {
+        let observable = !(self.cfg.ep.role == Role::Client && self.cfg.ep.router);
+        if !observable {
+            // no control service to observe
+        } else if stops.len() != 1 {
             return Err(Violation::new("stop-count", self.wit(), format!("{} Stop notifications after the fault, expected exactly one: {}", stops.len(), self.detail())));
         }
-        if !stops[0].starts_with(want) {
+        if observable && !stops[0].starts_with(want) {
             // a local close while the peer's earlier traffic already is a violation etc. cannot happen here: single fault
             return Err(Violation::new("stop-class", self.wit(), format!("control service saw {} but the cause calls for {want}: {}", stops[0], self.detail())));
         }
@@ -387,7 +390,7 @@ impl Scenario for Td {
         let stop_done = log.iter().find_map(|(st, r)| if let Rec::CtlDone(c) = r { if c.starts_with("Stop") { Some(*st) } else { None } } else { None });
         let stop_pos = log.iter().position(|(_, r)| matches!(r, Rec::CtlDone(c) if c.starts_with("Stop")));
         for (i, (_, r)) in log.iter().enumerate() {
-            if matches!(r, Rec::HDrop { .. } | Rec::PDrop { .. }) && stop_pos.is_none_or(|p| i < p) {
+            if observable && matches!(r, Rec::HDrop { .. } | Rec::PDrop { .. }) && stop_pos.is_none_or(|p| i < p) {
                 return Err(Violation::new("cancelled-before-stop", self.wit(), format!("{r:?} happened before the Stop notification was handled (at {stop_done:?}): {}", self.detail())));
             }
         }
@@ -446,9 +449,15 @@ pub fn configs(tier: Tier) -> Vec<TdCfg> {
                     ep.write_buf = Some((16, 4, 16));
                 }
                 if base == Base::StreamingDetached {
-                    // the client's protocol-service Publish message does not give its payload away (no take_payload)
+                    // the client's protocol-service Publish message does not give its payload away (no take_payload);
+                    // handlers behind the client's topic router receive the same Publish type as a server's and can.
+                    // A routed client has no control service the harness could observe (`ClientRouter` only offers
+                    // `start()`): the Stop clauses are not judged there, everything else is (seeded change C07_r5)
                     if role == Role::Client {
-                        continue;
+                        if cause == Cause::ReadyErr {
+                            continue;
+                        }
+                        ep.router = true;
                     }
                     ep.read_mode = ReadMode::Detached;
                 }
